@@ -498,12 +498,35 @@ func canonDiff(a, b string) string {
 		if i < len(ob) {
 			y = ob[i]
 		}
-		sb.WriteString("\n  - " + clip(x, 1200) + "\n  + " + clip(y, 1200) + "\n    " + fieldDiff(x, y))
+		sb.WriteString("\n  - " + clip(x, 6000) + "\n  + " + clip(y, 6000) + "\n    " + fieldDiff(x, y))
 		if i >= 2 {
 			break
 		}
 	}
 	return sb.String()
+}
+
+// canonFirstPair returns the first pair of differing node lines of two canonical fingerprints (see canonDiff).
+func canonFirstPair(a, b string) (x, y string) {
+	d := canonDiff(a, b)
+	ls := strings.Split(d, "\n")
+	for _, l := range ls {
+		if strings.HasPrefix(l, "  - ") && x == "" {
+			x = strings.TrimPrefix(l, "  - ")
+		}
+		if strings.HasPrefix(l, "  + ") {
+			y = strings.TrimPrefix(l, "  + ")
+			break
+		}
+	}
+	strip := func(l string) string {
+		// wiring mode lines carry "<sig> = " and " <- [..]": keep the node description
+		if i := strings.Index(l, " = *pipeline."); i >= 0 && i < 12 {
+			l = l[i+3:]
+		}
+		return l
+	}
+	return strip(x), strip(y)
 }
 
 // fieldDiff points at the first differing position of two one-line dumps.
